@@ -69,5 +69,5 @@ def run(args):
     rep.units = ["SE2/SO3/SE3/SE_2_3/SGal3 double drivers"]
     rep.trusted = ["sympy series expansion", "Taylor remainders beyond 8 terms are negligible at |theta| <= 3.5e-3", "clang AST"]
     rep.assumptions = ["NOT decided: exp = expm(hat) beyond order 5 of the Taylor expansion at the origin (generic theta, near pi and beyond); rounding error; absence of overflow for |t| <= 1e6"]
-    rep.checker_cmd = "manif-sa plugin + engine/jeteval.py + engine/rules_jet.py"
+    rep.checker_cmd = "manif-sa plugin + engine/jeteval.py + engine/rules_jet.py (R-JET) + engine/jetnum.py + engine/rules_series.py (R-SERIES)"
     return rep.finish()
